@@ -751,13 +751,15 @@ Definition core_prop (x : node) : bool :=
   match x with Ref _ | Prim _ => true | Arr y => core_item y | _ => false end.
 Definition core_obj (x : node) : bool :=
   match x with Obj ps _ => forallb (fun kv => core_prop (snd kv)) ps | _ => false end.
-Definition core_member (x : node) : bool := is_ref x || core_obj x.
+Definition core_member (x : node) : bool := is_ref x || core_obj x || prim_typed x.
 Definition core_top (x : node) : bool :=
   match x with
   | Obj _ _ => core_obj x
   | AllOf l => forallb core_member l
   | Prim _ | EnumN => true
   | Arr y => core_item y
+  | MapN y => core_item y                       (* top-level map of ($ref | primitive | enum) *)
+  | OneOf l | AnyOf l => forallb core_item l    (* top-level union of ($ref | primitive | enum) *)
   | _ => false
   end.
 Fixpoint prop_keys (x : node) : list str :=
